@@ -84,6 +84,9 @@ pub struct Case {
     pub sched: Sched,
     pub faults: Vec<String>,
     pub corpus: String,
+    /// index given to the first message (a file opened after others continues their numbering)
+    #[serde(default)]
+    pub index_base: u32,
 }
 
 fn put32(p: &mut Vec<u8>, v: u32, be: bool) {
@@ -599,6 +602,10 @@ fn chain(c: &Case, ctx: &mut Ctx) -> Result<(), Violation> {
     let bytes = Arc::new(c.bytes.clone());
     let ext = c.ext.clone();
     let sched = c.sched.clone();
+    let index_base = c.index_base;
+    if index_base != 0 {
+        ctx.probe("numbering_continues_near_u32_max");
+    }
     let n_msgs = sh::slot(0usize);
     let n_msgs2 = n_msgs.clone();
     crate::lc::align_lc_ids();
@@ -608,7 +615,7 @@ fn chain(c: &Case, ctx: &mut Ctx) -> Result<(), Violation> {
         let src = ScriptedSource::new(bytes.clone(), sched.clone(), Arc::new(vec![]));
         let rd = LowMarkBufReader::new(src, DLT_MSG_PARSER_LOW_MARK + 8192, DLT_MSG_PARSER_LOW_MARK);
         let ns = adlt::utils::get_new_namespace();
-        let it = adlt::utils::get_dlt_message_iterator(&ext, 0, rd, ns, Some(1_600_000_000_000_000), Some(1_600_000_000_000_000), None);
+        let it = adlt::utils::get_dlt_message_iterator(&ext, index_base, rd, ns, Some(1_600_000_000_000_000), Some(1_600_000_000_000_000), None);
         let mut msgs: Vec<DltMessage> = vec![];
         for m in it {
             msgs.push(m);
@@ -694,7 +701,7 @@ impl Check for C03 {
         BIGGEST.store(0, Ordering::SeqCst);
         let mut rng = Rng::new(42);
         let (bytes, _) = gen_dlt_corpus(&mut rng);
-        let c = Case { ext: "dlt".into(), bytes, sched: Sched::All, faults: vec![], corpus: "benign".into() };
+        let c = Case { ext: "dlt".into(), bytes, sched: Sched::All, faults: vec![], corpus: "benign".into(), index_base: 0 };
         let mut ctx = Ctx::default();
         for slot in 0..WHITELIST.len() {
             BIGGEST.store(0, Ordering::SeqCst);
@@ -753,7 +760,8 @@ impl Check for C03 {
         if bytes.len() > 1 << 20 {
             bytes.truncate(1 << 20);
         }
-        Case { ext, bytes, sched: gen_sched(&mut rng.sub("sched")), faults, corpus }
+        let index_base = { let mut ib = rng.sub("index_base"); if ib.chance(1, 12) { u32::MAX - ib.below(4) as u32 } else { 0 } };
+        Case { ext, bytes, sched: gen_sched(&mut rng.sub("sched")), faults, corpus, index_base }
     }
     fn run(c: &Case, ctx: &mut Ctx) -> Result<(), Violation> {
         ctx.sig.str(&c.ext);
@@ -838,7 +846,7 @@ impl Check for C03 {
         crate::lc::lc_finding_key(v)
     }
     fn rule() -> &'static str {
-        "one run = one input file image: 70 % simulated multi-ECU/multi-boot DLT traces containing every message kind (verbose/non-verbose logs, control requests/responses of all known services with structured GET_LOG_INFO/SW-version/timezone/... bodies truncated at every length, file-transfer announcements with sizes {0,1,2^31,2^32,2^62,2^63,2^64-1}, plugin-shaped network traces, arbitrary type-info words) with 0-3 field-targeted corruptions located by ground truth (len, htyp, noar, message type, timestamp {0,1,MAX}, reception seconds {0..61,MAX}, micros >= 10^6, type-info/service-id words, 16-bit length prefixes, status byte, verbose bit) and optionally re-framed as serial DLT; 20 % grammar-generated ASC/logcat/generic-log lines with extreme numbers and non-UTF-8; 10 % prefixes of repository example files; plus 0-2 blind faults (bit flips, byte set, truncation, region copy/delete, splice); read through LowMarkBufReader over a scripted short-read source and pushed through iterate -> header/payload text -> re-serialise -> statistics -> lifecycle detection -> listing -> time sort -> filter bank -> all built-in plugins + anonymiser + file transfer; non-trivial = at least one fault; distinct = hash of the image"
+        "one run = one input file image: 70 % simulated multi-ECU/multi-boot DLT traces containing every message kind (verbose/non-verbose logs, control requests/responses of all known services with structured GET_LOG_INFO/SW-version/timezone/... bodies truncated at every length, file-transfer announcements with sizes {0,1,2^31,2^32,2^62,2^63,2^64-1}, plugin-shaped network traces, arbitrary type-info words) with 0-3 field-targeted corruptions located by ground truth (len, htyp, noar, message type, timestamp {0,1,MAX}, reception seconds {0..61,MAX}, micros >= 10^6, type-info/service-id words, 16-bit length prefixes, status byte, verbose bit) and optionally re-framed as serial DLT; 20 % grammar-generated ASC/logcat/generic-log lines with extreme numbers and non-UTF-8; 10 % prefixes of repository example files; plus 0-2 blind faults (bit flips, byte set, truncation, region copy/delete, splice); read through LowMarkBufReader over a scripted short-read source (numbering started at 0, in one run of twelve at u32::MAX-k) and pushed through iterate -> header/payload text -> re-serialise -> statistics -> lifecycle detection -> listing -> time sort -> filter bank -> all built-in plugins + anonymiser + file transfer; non-trivial = at least one fault; distinct = hash of the image"
     }
     fn assumptions() -> Vec<&'static str> {
         vec![
